@@ -15,7 +15,7 @@ import ast
 import re
 
 from ..cfg import EXIT, header_parts
-from ..flow import parse_expr, Defs, Scope, bool_eval, guard_facts, inline_predicates, iterations, unreachable_when
+from ..flow import parse_expr, Defs, Scope, bool_eval, conjuncts, guard_facts, inline_predicates, iterations, unreachable_when
 from ..loader import AnalysisError, dotted, norm, walk_no_nested
 from ..report import Ctx
 from ..selftest import Mutant
@@ -263,7 +263,11 @@ def rule_dag(ctx: Ctx) -> None:  # noqa: C901, PLR0915
         if f is not init:
             continue
         n = cfg.node_containing(c)
-        if n is not None and not any(t == "_TASK_GRAPH is None" and not pol for t, pol in guard_facts(cfg, Defs(init), n)):
+        if n is None:
+            continue
+        # the graph may be read through the public accessor (`dag = task_graph(); if dag is None: return`)
+        facts = [ft for test, truth in cfg.controls(n) for ft in conjuncts(inline_predicates(ctx, init, Defs(init).resolve(test)), truth)]
+        if not any(t == "_TASK_GRAPH is None" and not pol for t, pol in facts):
             ungated.append(c)
     ctx.tri("5-dag", init, (ungated or [init.node])[0], bool(reg) and not ungated, bool(ungated), "registration only under an active construct_dag",
             "the task graph is written without testing `_TASK_GRAPH is not None`", "registration calls not found", key="gate")
